@@ -111,15 +111,18 @@ def generic_world_candidates(scn):
             yield s
 
 
-def minimise(scn, still_fails, candidates, budget=200):
+def minimise(scn, still_fails, candidates, budget=200, wall_s=120.0):
     """Greedy fixpoint: take the first candidate that still fails, restart.
     `still_fails(scn) -> bool` must be deterministic.  Returns (scn, executions)."""
+    import time
+
     used = 0
     progress = True
-    while progress and used < budget:
+    t0 = time.time()  # wall clock only bounds the effort; it never enters a digest
+    while progress and used < budget and time.time() - t0 < wall_s:
         progress = False
         for cand in candidates(scn):
-            if used >= budget:
+            if used >= budget or time.time() - t0 >= wall_s:
                 break
             used += 1
             try:
